@@ -623,6 +623,40 @@ func (b *builder) addFixed() {
 		t.Ifaces = append(t.Ifaces, &Iface{Name: "FxSealed", File: file, Exportable: false, Tags: []string{"fixed"},
 			Methods: []Method{{Name: "seal"}, {Name: "Open", Results: []Param{{"", er}}}, {Name: "visitAll", Params: []Param{{"", fnA}}}}})
 	}
+	// interfaces promoted from well-known std interfaces (several methods each, the shapes real code mocks) and the
+	// same method names/signatures declared directly
+	ioD, sortD, heapD, httpD, syncD, fmtD, flagD, encD := b.std("io"), b.std("sort"), b.std("container/heap"), b.std("net/http"), b.std("sync"), b.std("fmt"), b.std("flag"), b.std("encoding")
+	bytesT := slice(basic("byte"))
+	emb := func(name string, embeds []*T, ms ...Method) {
+		t.Ifaces = append(t.Ifaces, &Iface{Name: name, File: file, Exportable: true, Embeds: embeds, Methods: ms, Tags: []string{"fixed"}})
+	}
+	emb("FxIO", []*T{pkgT(ioD, "ReadWriter"), pkgT(ioD, "Closer"), pkgT(ioD, "ReaderAt")}, Method{Name: "Name", Results: []Param{{"", str}}})
+	emb("FxSort", []*T{pkgT(sortD, "Interface")}, Method{Name: "Name", Results: []Param{{"", str}}})
+	emb("FxHeap", []*T{pkgT(heapD, "Interface")})
+	emb("FxErr", []*T{basic("error"), pkgT(fmtD, "Stringer")}, Method{Name: "Unwrap", Results: []Param{{"", er}}})
+	emb("FxServe", []*T{pkgT(httpD, "Handler"), pkgT(syncD, "Locker")}, Method{Name: "Addr", Results: []Param{{"", str}}})
+	emb("FxCodec", []*T{pkgT(flagD, "Value"), pkgT(encD, "BinaryMarshaler"), pkgT(encD, "TextUnmarshaler")})
+	mk("FxDirectIO",
+		Method{Name: "Read", Params: []Param{{"p", bytesT}}, Results: []Param{{"n", in}, {"err", er}}},
+		Method{Name: "Write", Params: []Param{{"p", bytesT}}, Results: []Param{{"", in}, {"", er}}},
+		Method{Name: "ReadFrom", Params: []Param{{"r", pkgT(ioD, "Reader")}}, Results: []Param{{"", i64}, {"", er}}},
+		Method{Name: "SetTags", Params: []Param{{"tags", slice(str)}}},
+		Method{Name: "Put", Params: []Param{{"", bytesT}}, Results: []Param{{"", er}}})
+	// only result-less methods
+	mk("FxNotifier",
+		Method{Name: "Notify", Params: []Param{{"topic", str}, {"payload", bytesT}}},
+		Method{Name: "Flush"},
+		Method{Name: "Close"})
+	// a method Reset<X> in one interface and <X> in another, requested together
+	mk("FxMailer",
+		Method{Name: "ResetPassword", Params: []Param{{"user", str}}, Results: []Param{{"", er}}},
+		Method{Name: "ResetAll"},
+		Method{Name: "Send", Params: []Param{{"to", str}, {"body", str}}, Results: []Param{{"", er}}})
+	mk("FxVault",
+		Method{Name: "Password", Params: []Param{{"user", str}}, Results: []Param{{"", str}}},
+		Method{Name: "All", Results: []Param{{"", slice(str)}}},
+		Method{Name: "Store", Params: []Param{{"user", str}, {"pw", str}}})
+	t.FixedRequests = append(t.FixedRequests, []string{"FxMailer", "FxVault"}, []string{"FxVault", "FxMailer"}, []string{"FxNotifier"}, []string{"FxSort", "FxIO"})
 	// unnamed parameters whose derived name is a std package that the next parameter brings in
 	tm, cx := b.std("time"), b.std("context")
 	mk("FxShadow",
